@@ -1,7 +1,8 @@
-\* quick: every site with <= 1 line, one in Sample2 of the two-line sites, one in Sample3 of the three-line sites
+\* quick: every site with <= 1 line, one in Sample2 of the two-line sites; one in Extend3 of the two-line sites is extended, of those three-line sites one in Sample3
 CONSTANT MaxLines = 3
 CONSTANT Sample2 = 4
-CONSTANT Sample3 = 60
+CONSTANT Sample3 = 20
+CONSTANT Extend3 = 6
 SPECIFICATION Spec
 INVARIANT TypeOK
 INVARIANT SetupRejectsDuplicatesAndBadArity
